@@ -131,6 +131,25 @@ def check_enabled(ctx, R="C19.enabled"):
         ctx.ok(R, opts[0], "the pick is drawn from Options(enabled): probability proportional to weight among eligible items")
     else:
         ctx.finding(R, pk, "Options(enabled)", "the pick is no longer Options(enabled)")
+    # a single eligible item is taken as it is: Options leaves out entries of weight 0, so Options({item: 0}) would reject the
+    # simulation although an item is eligible (the last item of a shuffle may well have weight 0)
+    oi = model.func(DI, "Options.__init__")
+    drops_zero = any(isinstance(i, ast.If) and lib.holds([(i.test, True)], "prob == 0", "weight == 0", "w == 0", "not prob") and any(isinstance(x, ast.Continue) for x in i.body) for i in ast.walk(oi)) or any(
+        isinstance(i, ast.If) and isinstance(i.test, ast.Compare) and len(i.test.ops) == 1 and isinstance(i.test.ops[0], ast.Eq) and lib.const(i.test.comparators[0]) == 0 and any(isinstance(x, ast.Continue) for x in i.body) for i in ast.walk(oi)
+    )
+    if drops_zero:
+        conds_o = lib.guard_tests(optc[0], pk)
+        names_ = {en} | key_lists
+        if any(lib.holds(conds_o, f"len({x}) != 1", f"len({x}) > 1", f"len({x}) >= 2", f"1 < len({x})") for x in names_):
+            ctx.ok(R, optc[0], "Options(...) is built only when several items are eligible; a single one is taken as it is")
+        else:
+            ctx.finding(
+                R,
+                optc[0],
+                "single eligible item goes through Options",
+                "pickEnabledInvocable builds Options(...) also when exactly one item is eligible: Options leaves out entries of weight 0, so a single eligible item of weight 0 (e.g. the last "
+                "item left in a `do shuffle`) gives an empty distribution and the simulation is rejected although an item is eligible",
+            )
     single = [n for n in ast.walk(pk) if isinstance(n, ast.If) and lib.ctext(n.test) == lib.ctext_of(f"len({en}) == 1")]
     if single and isinstance(lib.core(single[0].body)[0], ast.Assign) and unparse(lib.core(single[0].body)[0].value) == f"list({en})[0]":
         ctx.ok(R, single[0], "a single eligible item is taken deterministically")
@@ -346,6 +365,11 @@ def check_rewind(ctx, R="C19.rewind"):
 
 
 def check(ctx):
+    # the weighted pick itself is a weighted DiscreteRange (Options -> makeSelector): its population / weights dataflow is C01's
+    # rule, a necessary condition here too
+    from .c01 import check_weights
+
+    ctx.run(check_weights, R="C19.weights")
     ctx.run(check_rewind)
     ctx.run(check_enabled)
     ctx.run(check_schedule)
